@@ -26,6 +26,8 @@ mod stream_tools;
 mod task;
 #[cfg(test)]
 mod tests;
+#[cfg(all(test, loom, penguin_rs_verif))]
+mod verif_loom;
 pub mod timing;
 pub mod ws;
 
